@@ -58,6 +58,16 @@ Theorem declarations_keep_their_order predefs ds i d :
 Proof. exact (nth_declaration predefs ds i d). Qed.
 Print Assumptions declarations_keep_their_order.
 
+(* (d) what is printed from the typed tree denotes exactly the language of what was written, for every interpretation of the
+   non-terminals: the grammar derived from the typed tree's structure generates what the directly derived grammar generates *)
+Theorem typed_tree_denotes_the_written_language rules e w : em rules e w <-> tden rules (ast_value e) w.
+Proof. exact (typed_tree_same_language rules e w). Qed.
+Print Assumptions typed_tree_denotes_the_written_language.
+
+Theorem printed_tree_same_language rules e w : em rules (unparse (ast_value e)) w <-> em rules e w.
+Proof. exact (printed_same_language rules e w). Qed.
+Print Assumptions printed_tree_same_language.
+
 (* non-vacuity: (a b) c | d |  *)
 Example typed_example :
   ast_value (EAltE (EAlt (ECat (EGroup (ECat (ENT "a") (ENT "b"))) (ENT "c")) (ENT "d")))
